@@ -98,6 +98,13 @@ def main():
             q.append("Q %s.l kkt lit\n%s\nZ %s\nY %s\nV %s" % (cid, co.ilp_text(), " ".join(z), " ".join(a["pi"][1]), a["objval"][1][0]))
             q.append("Q %s.d dz\n%s\nY %s" % (cid, co.ilp_text(), " ".join(a["pi"][1])))
             want[cid + ".d"] = ("dz", co)
+            # sign handling of ILLlib_solution (model LP/LibSolution.v): internal simplex values -> accessor values
+            if kind in ("PRIMAL", "DUAL") and co.intsol and co.intsol[0] == "1" and len(co.solves) == 1:   # values straight from the rational simplex
+                parts = " ".join(co.intsol[1:]).split("|")
+                if len(parts) == 3:
+                    mx = co.ilp[0][1]
+                    q.append("Q %s.s libsol %s %s %d %s %s" % (cid, mx, parts[0].strip(), len(parts[1].split()), parts[1].strip(), parts[2].strip()))
+                    want[cid + ".s"] = ("libsol", co)
             # solver out-params equal accessor values (EXACT)
             if kind == "EXACT" and (co.x != a["x"][1] or co.y != a["pi"][1]):
                 ck.violation("outparam_%s.txt" % cid, dict(cases)[cid], "x/y handed back by QSexact_solver differ from accessor values",
@@ -107,7 +114,7 @@ def main():
             if [s.split() for s in sol] != exp:
                 ck.violation("solacc_%s.txt" % cid, dict(cases)[cid], "QSget_solution differs from the individual accessors", match=dict(kind="solution-acc"))
     ans = run_model("drv_solve", "\n".join(q) + "\n")
-    nopt = ntrace = maxlevel = 0
+    nopt = ntrace = maxlevel = nsign = 0
     exits = {}
     for qid, (kind, co) in want.items():
         cid = qid.rsplit(".", 1)[0]
@@ -144,6 +151,16 @@ def main():
             if r and r[2] == "exhausted" and real[0] == 0 and st in (1, 2):
                 ck.violation("exhausted_%s.txt" % cid, dict(cases)[cid], "QSexact_solver returned status %d through ladder exhaustion (no certificate)" % st,
                              match=dict(kind="exhausted-definitive"))
+        elif kind == "libsol":
+            nsign += 1
+            Mq = F(M)
+            nrm = lambda l: [Mq if t_ == "inf" else (-Mq if t_ == "-inf" else F(t_)) for t_ in l]
+            got = [nrm(p_.split()) for p_ in " ".join(r or []).split("|")]
+            exp = [nrm(co.acc["objval"][1]), nrm(co.acc["pi"][1]), nrm(co.acc["rc"][1])]
+            if got != exp:
+                ck.violation("libsol_%s.txt" % cid, dict(cases)[cid] + "\n# internal: %s\n# model lib_solution: %s\n# accessors: %s" % (co.intsol, r, [co.acc[k_][1] for k_ in ("objval", "pi", "rc")]),
+                             "correspondence LibSolution.lib_solution vs ILLlib_solution broke: accessor objval/pi/rc differ from the model applied to the simplex's internal values",
+                             no_input=True, match=dict(kind="corr-libsol"))
         elif kind == "dz":
             n = co.dims()[2]
             if r is None or r[:n] != co.acc["rc"][1]:
@@ -231,6 +248,7 @@ def main():
                       "reported OPTIMAL and the certificate was judged by extracted check_kkt; distinct by (LP data, configuration)")
     ck.cov["status_histogram"] = {"%s/%s" % k: v for k, v in sorted(stat_hist.items())}
     ck.cov["optimal_judged"] = nopt
+    ck.cov["lib_solution_corr"] = nsign
     ck.cov["driver_traces_replayed"] = dict(n=ntrace, exit_labels=exits, max_level_reached=maxlevel)
     ck.cov["evaluations"] = len(cases)
     ck.assumptions = ["Coq kernel + vm_compute; extraction (ExtrOcamlBasic) and OCaml compiler for the oracle",
